@@ -274,6 +274,20 @@ CLAIMED["C09"] = dict(
          "freezes columns at residual 1e-10). Grids float64 and equally spaced; strategies created under lazy kernel evaluation; fantasy parameters do not require grad.",
     technique="TLA+/TLC exact index maps and rational algebra replayed into the code; dense-twin default strategy as oracle")
 
+CLAIMED["C06"] = dict(
+    category="model_checking",
+    text="LazyKernel.tla transcribes _getitem, _size, transposition, unsqueeze, repeat and diagonal of LazyEvaluatedKernelTensor, Kernel.__getitem__ / expand_batch "
+         "acting on every parameter and buffer, and linear_operator's index preprocessing, all on integer-labelled tensors. TLC enumerates exhaustively, per "
+         "broadcast pattern and t in {1,2,3}, the index expressions (all slices with out-of-range bounds and steps, ints, 1-d index tensors, ellipsis placements, "
+         "batch indices, chains) and operations, and checks that the code-shaped result equals numpy indexing (PyIndex!TIndex) of the dense label tensor except in "
+         "named syntactic classes (the known findings). Every case is replayed on a label stub kernel whose entries are the spec's labels (exact equality, oracle "
+         "validated against torch on every case) and on 34 zoo kernels in float64 at 1e-10 against the same torch operation on the dense matrix; five metamorphic "
+         "relations (diag = diagonal, transpose symmetry, lazy = eager, stacked-input blocks, active_dims twin) run on all kernels x all enumerated patterns.",
+    design_ref="DESIGN.md section 6 (C06)",
+    note="Shape bounds up to 2x2x(3t)x(3t); index tensors 1-d and adjacent; last_dim_is_batch not exercised; a (kernel, pattern) whose eager evaluation raises is "
+         "skipped and counted. The model is of the pinned code: classes repaired since print as MODEL-DRIFT predictions that the replay no longer confirms.",
+    technique="TLA+ exact-function model checked by TLC; exhaustive replay into a label stub (exact) and real kernels (metamorphic, 1e-10)")
+
 PENDING = "check not built yet (build in progress; see DESIGN.md section 11)"
 NOT_APPLICABLE = {}
 
